@@ -173,6 +173,13 @@ func (c *cluster) restart(id ch.NodeID) error {
 }
 
 func (c *cluster) close() {
+	defer func() {
+		for _, id := range voters {
+			if cl, ok := c.nodes[id].factory.(interface{ Close() error }); ok {
+				_ = cl.Close()
+			}
+		}
+	}()
 	for _, id := range voters {
 		c.mu.Lock()
 		rt := c.nodes[id].rt
@@ -326,6 +333,8 @@ func outcomeName(o ch.AppendOutcome) string {
 		return "already"
 	case ch.AppendOutcomeConflict:
 		return "rejected"
+	case ch.AppendOutcomeUnknown:
+		return "unknown"
 	default:
 		return "other"
 	}
